@@ -62,10 +62,15 @@ class _guard:
     def __init__(self, seconds=20.0):
         self.seconds = seconds
 
+    hangs = 0
+
     def __enter__(self):
         import signal
+        if _guard.hangs >= 4:  # circuit breaker: the real code keeps hanging; fail fast from now on
+            raise RealCodeHang("skipped after %d earlier hangs" % _guard.hangs)
 
         def on_alarm(signum, frame):
+            _guard.hangs += 1
             raise RealCodeHang("no result within %gs" % self.seconds)
         self.old = signal.signal(signal.SIGALRM, on_alarm)
         signal.setitimer(signal.ITIMER_REAL, self.seconds)
@@ -369,7 +374,7 @@ def gen_grid_for(rng, spec):
     return g
 
 
-@guarded(30.0)
+@guarded(10.0)
 def real_candidates(b, grid, seed):
     dr, sr, _, _ = _mods()
     before = copy.deepcopy(grid)
